@@ -122,6 +122,8 @@ def check(ctx):
     ctx.floor('A2p', 3, 'memoising stores in the graph processor / hierarchy analyzers')
     ctx.floor('A5a', 8, 'vector-returning manager methods')
     ctx.floor('A5f', 6, 'conditional-activeness flag sites')
+    from ..rules import indexspace as _ixg
+    _ixg.check_global_row_ids(ctx, f'{GP}.get_all_discrete_x')
 
 
 from ..selftest import V  # noqa: E402
